@@ -7,6 +7,14 @@ BASELINE = ("cmake -S /repo -B /tmp/vf_baseline_build -G Ninja -DCMAKE_BUILD_TYP
             "ctest --test-dir /tmp/vf_baseline_build -j8 --timeout 900; rc=$?; rm -rf /tmp/vf_baseline_build; exit $rc")
 # property -> (engine, technique, level text, level note, design ref)
 CHECKS = {
+ "C02": ("rapidcheck", "property-based testing: the returned azimuth/distance is followed by an independent geodesic-ODE reference and must land on point 2; shortest-path criteria on the reference track; metamorphic symmetries; differential series/exact; triangle inequality",
+         "Generated-input exploration with singular sets over-weighted (astroid region, meridional, equatorial, polar, near-coincident, lat1=-lat2 +- ulps). Every inverse solution is validated against the definition (it joins the points, arc <= 180, longitude extent <= 180) by a reference sharing no code with the solvers.",
+         "Trusts the ODE reference (self-checked per case), tolerances = 2x documented accuracy (4x beyond |f| = 0.5), azimuth relations conditioned by 1/|m12|. Known finding G1 (nearly equatorial, near-conjugate pairs on |f| >= 0.19 ellipsoids) is excluded by region and reported as KNOWN-FINDING.",
+         "DESIGN.md section 3/C02"),
+ "C03": ("rapidcheck", "property-based testing against Jacobi-equation and area-integral solutions of the geodesic-ODE reference; metamorphic reversal and addition rules; differential series/exact; Gauss-Bonnet on the sphere; closed-form ellipsoid area",
+         "Generated-input exploration: m12, M12, M21, S12 from direct, arc-direct, line and inverse interfaces of all three solver configurations are compared with the quantities' definitions (variational equation, area between the segment and the equator) integrated independently.",
+         "Trusts the ODE reference (area integrand regularised analytically at the poles), tolerance law of DESIGN section 2 incl. the end-point conditioning term c2*tan(phi)/nu*position tolerance; lines passing within 1 m of the axis are compared modulo pi*c2.",
+         "DESIGN.md section 3/C03"),
  "C01": ("rapidcheck", "property-based testing against an independent long-double geodesic-ODE reference; differential across 8 solver/line configurations; metamorphic reversal",
          "Generated-input exploration: every generated direct problem is compared with a reference that integrates the geodesic equation itself (no series, no auxiliary sphere), to 2x the documented accuracy for the flattening. Exploration is the right level: the property quantifies over a continuum of inputs and an executable oracle exists.",
          "Trusts: the reference ODE integrator (self-checked per case by step halving, constraint projection), x87 long double, the tolerance formulas of DESIGN section 2 (2x documented accuracy, scaled by length in quarter circuits). Errors below the documented accuracy are not violations.",
